@@ -209,11 +209,12 @@ def judge(case: dict[str, Any]) -> Judgement:
             return False
         for con in constraints:
             if isinstance(con, dict):
-                value = float(np.asarray(con["fun"](x.copy())).reshape(-1)[0])
+                # SciPy's dict constraints may be vector valued: every component = 0 (eq) or >= 0 (ineq)
+                values = np.asarray(con["fun"](x.copy()), dtype=float).reshape(-1)
                 if con["type"] == "eq":
-                    if value != 0.0:
+                    if np.any(values != 0.0):
                         return False
-                elif value < 0.0:
+                elif np.any(values < 0.0):
                     return False
             elif isinstance(con, LinearConstraint):
                 values = np.asarray(con.A) @ x
@@ -307,10 +308,10 @@ def judge(case: dict[str, Any]) -> Judgement:
     probe = np.array([1.0, -1.0, 2.0])[:d]
     for index, con in enumerate(constraints):
         if isinstance(con, dict) and "jac" in con:
-            jac = np.asarray(con["jac"](probe.copy()), dtype=float).reshape(-1)
-            base = float(np.asarray(con["fun"](probe.copy())).reshape(-1)[0])
-            exact = np.array([float(np.asarray(con["fun"](probe + np.eye(d)[i])).reshape(-1)[0]) - base for i in range(d)])
-            if jac.shape != (d,) or not np.array_equal(jac, exact):
+            base = np.asarray(con["fun"](probe.copy()), dtype=float).reshape(-1)
+            jac = np.asarray(con["jac"](probe.copy()), dtype=float).reshape(base.size, -1)
+            exact = np.stack([np.asarray(con["fun"](probe + np.eye(d)[i]), dtype=float).reshape(-1) - base for i in range(d)], axis=1)
+            if jac.shape != (base.size, d) or not np.array_equal(jac, exact):
                 j.fail("constraint-jacobian-not-derivative-of-its-value", index=index, observed=jac, expected=exact, nl=case["nl"], lin=case["lin"])
         if isinstance(con, NonlinearConstraint) and con.jac is not None and callable(con.jac) and method != "differential_evolution":
             pass
